@@ -271,6 +271,9 @@ func checkC05C(c *Check, L *Loaded) {
 	r4 := c.Rule("R5.4", "in-place changes of a text's byte length keep cap = length + 1", 2)
 	checkCapTruth(c, P, r4)
 
+	r10 := c.Rule("R5.10", "a length-or-failure result of the UTF-8 helpers is tested for the failure value before it is used as a length, offset or increment", 6)
+	checkFailureValues(c, P, r10)
+
 	r7 := c.Rule("R5.7", "a concatenation function of the runtime leaves the operand it takes over empty on every path: its buffer is moved into the result or released, then the operand is reset", 3)
 	bind := concatBindings(L)
 	claimed := claimedOperands(L)
@@ -317,5 +320,186 @@ func checkC05C(c *Check, L *Loaded) {
 		} else {
 			r7.AddAt(Bad, key, f.Pos(), strings.Join(bad, " | ")+": the generator does not release this operand after the call (it copies a non-temporary into an unregistered slot and lets a temporary be released at scope end), so its block leaks or is released twice")
 		}
+	}
+}
+
+// ---- R5.10: size-or-failure results ----
+// A C function of the runtime that returns size_t and has a (size_t)-1 failure value (it returns -1 itself, or returns a value
+// it compares with -1) must have that value tested before the result is used as a length, offset or increment.
+
+func failureValueFuncs(P *CProgram) map[string]string {
+	out := map[string]string{}
+	for name, f := range P.Funcs {
+		if !strings.HasPrefix(f.Unit, "lib/runtime/") || !strings.Contains(f.RType, "size_t") {
+			continue
+		}
+		why := ""
+		// failure returns that only signal a NULL argument are not length failures: callers pass live pointers
+		nullGuarded := map[*CNode]bool{}
+		f.Body.walk(func(m *CNode) bool {
+			if m.Kind == "IfStmt" && len(m.Inner) >= 2 {
+				cnd := cstrip(m.Inner[0])
+				if cnd != nil && cnd.Kind == "BinaryOperator" && cnd.Opcode == "==" && len(cnd.Inner) == 2 {
+					if k, ok := cIntValue(cnd.Inner[1]); ok && k == 0 && cstrip(cnd.Inner[0]).Kind == "DeclRefExpr" {
+						m.Inner[1].walk(func(x *CNode) bool {
+							if x.Kind == "ReturnStmt" {
+								nullGuarded[x] = true
+							}
+							return true
+						})
+					}
+				}
+			}
+			return true
+		})
+		f.Body.walk(func(m *CNode) bool {
+			if m.Kind == "ReturnStmt" && len(m.Inner) == 1 && !nullGuarded[m] {
+				if v, ok := cIntValue(m.Inner[0]); ok && v == -1 {
+					why = "returns -1"
+				}
+			}
+			if m.Kind == "BinaryOperator" && (m.Opcode == "==" || m.Opcode == "!=") && len(m.Inner) == 2 {
+				if v, ok := cIntValue(m.Inner[1]); ok && v == -1 {
+					why = "returns a value it compares with (size_t)-1"
+				}
+			}
+			return true
+		})
+		if why != "" {
+			out[name] = why
+		}
+	}
+	return out
+}
+
+func checkFailureValues(c *Check, P *CProgram, r *Rule) {
+	F := failureValueFuncs(P)
+	c.extra["c_failure_value_functions"] = len(F)
+	var names []string
+	for n := range P.Funcs {
+		names = append(names, n)
+	}
+	sort.Strings(names)
+	isMinusOneCheck := func(cond *CNode, v string) bool {
+		found := false
+		cond.walk(func(m *CNode) bool {
+			if m.Kind == "BinaryOperator" && len(m.Inner) == 2 {
+				l, rr := cstrip(m.Inner[0]), cstrip(m.Inner[1])
+				if l != nil && l.text() == v {
+					if k, ok := cIntValue(rr); ok && ((k == -1 && (m.Opcode == "==" || m.Opcode == "!=")) || (k == 0 && (m.Opcode == "<" || m.Opcode == ">="))) {
+						found = true
+					}
+				}
+			}
+			return !found
+		})
+		return found
+	}
+	for _, name := range names {
+		f := P.Funcs[name]
+		if _, self := F[name]; self {
+			continue
+		}
+		seen := map[string]int{}
+		// walk with parent tracking
+		var rec func(n *CNode, parents []*CNode)
+		rec = func(n *CNode, parents []*CNode) {
+			if n.Kind == "CallExpr" {
+				if why, ok := F[n.calleeName()]; ok {
+					callee := n.calleeName()
+					seen[callee]++
+					key := "C " + f.Name + "|result of " + callee
+					if seen[callee] > 1 {
+						key += fmt.Sprintf(" #%d", seen[callee])
+					}
+					pos := fmt.Sprintf("%s:%d", f.Unit, n.line)
+					// nearest non-cast parent
+					var par *CNode
+					for i := len(parents) - 1; i >= 0; i-- {
+						k := parents[i].Kind
+						if k == "ImplicitCastExpr" || k == "ParenExpr" || k == "CStyleCastExpr" {
+							continue
+						}
+						par = parents[i]
+						break
+					}
+					v := ""
+					switch {
+					case par == nil || par.Kind == "CompoundStmt":
+						// result discarded: the output buffer must not be a local array that is read afterwards
+						buf := ""
+						if a := n.args(); len(a) > 0 {
+							if b := cstrip(a[0]); b != nil && b.Kind == "DeclRefExpr" {
+								buf = b.text()
+							}
+						}
+						readLater := false
+						if buf != "" {
+							f.Body.walk(func(m *CNode) bool {
+								if m.Kind == "DeclRefExpr" && m.text() == buf && m.line > n.line {
+									readLater = true
+								}
+								return true
+							})
+						}
+						if readLater {
+							r.AddAt(Bad, key, pos, callee+" ("+why+") writes nothing into "+buf+" when it fails, its result is ignored and "+buf+" is read afterwards: an invalid code point makes the function read uninitialised memory up to whatever byte happens to be 0")
+						} else {
+							r.AddAt(OK, key, pos, "result unused; the buffer is not a local that is read afterwards")
+						}
+						return
+					case par.Kind == "VarDecl":
+						v = par.Name
+					case par.Kind == "BinaryOperator" && par.Opcode == "=" && cstrip(par.Inner[0]).Kind == "DeclRefExpr" && cstrip(par.Inner[1]) == n:
+						v = cstrip(par.Inner[0]).text()
+					case par.Kind == "IfStmt" || par.Kind == "BinaryOperator" && (par.Opcode == "==" || par.Opcode == "!="):
+						r.AddAt(OK, key, pos, "compared directly")
+						return
+					case par.Kind == "ReturnStmt":
+						r.AddAt(OK, key, pos, "handed on to the caller unchanged")
+						return
+					default:
+						r.AddAt(Bad, key, pos, "the result of "+callee+" ("+why+") is used in '"+par.text()+"' without a test for the failure value: for an invalid code point the length/offset is SIZE_MAX (i.e. -1) and memory outside the block is read or written")
+						return
+					}
+					// variable: a test of v against the failure value must come before every other use
+					checkLine, firstUse := 0, 0
+					var walkUses func(m *CNode, inCheck bool)
+					walkUses = func(m *CNode, inCheck bool) {
+						if m.Kind == "IfStmt" && len(m.Inner) > 0 && isMinusOneCheck(m.Inner[0], v) && m.line >= n.line {
+							if checkLine == 0 || m.line < checkLine {
+								checkLine = m.line
+							}
+							for _, ch := range m.Inner[1:] {
+								walkUses(ch, false)
+							}
+							return
+						}
+						if m.Kind == "DeclRefExpr" && m.text() == v && m.line > n.line {
+							if firstUse == 0 || m.line < firstUse {
+								firstUse = m.line
+							}
+						}
+						for _, ch := range m.Inner {
+							walkUses(ch, inCheck)
+						}
+					}
+					walkUses(f.Body, false)
+					switch {
+					case checkLine != 0 && (firstUse == 0 || checkLine <= firstUse):
+						r.AddAt(OK, key, pos, fmt.Sprintf("%s is tested against the failure value (line %d) before it is used", v, checkLine))
+					case firstUse == 0:
+						r.AddAt(OK, key, pos, v+" is never used")
+					default:
+						r.AddAt(Bad, key, pos, fmt.Sprintf("%s receives the result of %s (%s) and is used (line %d) without a preceding test for the failure value: for an invalid code point it is SIZE_MAX (i.e. -1) and memory outside the block is read or written", v, callee, why, firstUse))
+					}
+					return
+				}
+			}
+			for _, ch := range n.Inner {
+				rec(ch, append(parents, n))
+			}
+		}
+		rec(f.Body, nil)
 	}
 }
